@@ -8,7 +8,8 @@ package migrator
 //@ # ---------- C20 (guard structure only) ----------
 //@ # AutoMigrate issues a creating DDL call only for an object that a probe, asked about the same object just
 //@ # before, reported missing; it never drops or renames anything. What the probes and the DDL calls do is the
-//@ # dialect's and the database's business and is NOT decided here.
+//@ # dialect's and the database's business and is NOT decided here. (At a site the receiver is `recv` and arg0 the
+//@ # first parameter; in an event the receiver is arg0.)
 //@ ghost tableMissing tableProbedTag tableProbedBox consMissing consProbed idxMissing idxProbed
 //@ event invoke Migrator.HasTable
 //@   in migrator.(Migrator).AutoMigrate
@@ -28,25 +29,25 @@ package migrator
 //@   in migrator.(Migrator).AutoMigrate
 //@   min-sites 1
 //@   assert probe-reported-no-table: tableMissing == 1 [C20]
-//@   assert same-model-as-probed: len(arg1) == 1 && tagof(arg1[0]) == tableProbedTag && boxof(arg1[0]) == tableProbedBox [C20]
+//@   assert same-model-as-probed: len(arg0) == 1 && tagof(arg0[0]) == tableProbedTag && boxof(arg0[0]) == tableProbedBox [C20]
 //@ site add-column-only-if-missing
 //@   match invoke Migrator.AddColumn
 //@   in migrator.(Migrator).AutoMigrate$1
 //@   min-sites 1
 //@   assert no-such-column-found: foundColumn == nil [C20]
-//@   assert the-column-looked-for: arg2 == dbName [C20]
+//@   assert the-column-looked-for: arg1 == dbName [C20]
 //@ site create-constraint-only-if-missing
 //@   match invoke Migrator.CreateConstraint
 //@   in migrator.(Migrator).AutoMigrate$1
 //@   min-sites 2
 //@   assert probe-reported-no-constraint: consMissing == 1 [C20]
-//@   assert same-constraint-as-probed: arg2 == consProbed [C20]
+//@   assert same-constraint-as-probed: arg1 == consProbed [C20]
 //@ site create-index-only-if-missing
 //@   match invoke Migrator.CreateIndex
 //@   in migrator.(Migrator).AutoMigrate$1
 //@   min-sites 1
 //@   assert probe-reported-no-index: idxMissing == 1 [C20]
-//@   assert same-index-as-probed: arg2 == idxProbed [C20]
+//@   assert same-index-as-probed: arg1 == idxProbed [C20]
 //@ site auto-migrate-never-drops
 //@   match invoke Migrator.DropTable | invoke Migrator.DropColumn | invoke Migrator.DropIndex | invoke Migrator.DropView | invoke Migrator.RenameTable | invoke Migrator.RenameColumn | invoke Migrator.RenameIndex
 //@   in migrator.(Migrator).AutoMigrate migrator.(Migrator).AutoMigrate$1 migrator.(Migrator).MigrateColumn
